@@ -117,6 +117,7 @@ func init() {
 			}},
 			{Name: "readers", Race: true, QShards: 2, TShards: 4, Run: c13Readers},
 			{Name: "parallel", Race: true, Run: sequtilParallel("pack")},
+			firstCallUnit(firstSequtilPack),
 		},
 	})
 	register(&Property{
@@ -138,6 +139,7 @@ func init() {
 					"TranslateReadingFrames": func(s []byte) { sequtil.TranslateReadingFrames(s) }})
 			}},
 			{Name: "parallel", Race: true, Run: sequtilParallel("translate")},
+			firstCallUnit(firstSequtilAmino),
 		},
 	})
 }
